@@ -69,6 +69,7 @@ const (
 	cDirectCompare
 	cStarOverlap
 	cProbeSkipped
+	cReferenceCompared
 	numCounters
 )
 
@@ -101,6 +102,7 @@ var counterNames = [...]string{
 	cWSCutNoClose: "reach.ws_cut_without_close", cTrailerChecked: "reach.final_status_checked", cBase64Tail: "reach.base64_tail_nonzero",
 	cChunkBoundary: "reach.httpbody_chunk_boundary", cDirectCompare: "reach.direct_backend_comparison",
 	cStarOverlap: "reach.kind_star_overlap_unpredicted", cProbeSkipped: "reach.probe_not_judged_after_unpredicted_verdict",
+	cReferenceCompared: "reach.final_state_compared_with_fresh_registration",
 }
 
 func counterName(i int) string {
